@@ -29,7 +29,10 @@ for p in json.loads(subprocess.run(['./check','--dump-all'],capture_output=True,
 print(' '.join(sorted(bs)))"); do
   (cd extract && go build -o bin/$b ./cmd/$b && ./bin/$b --repo "${VERIF_REPO:-/repo}" --out ../lean/Gp/Gen) || true
 done
-(cd lean && lake build $targets) || rc=1
+# build targets one by one: a target that fails here is reported by its own check, it must not break setup
+for t in $targets; do
+  (cd lean && lake build $t >/tmp/verif-setup-lake.log 2>&1) || { echo "setup: lean target $t failed (will be reported by its check)"; tail -5 /tmp/verif-setup-lake.log; }
+done
 # Go adapters: warm the build cache
-(cd harness && for d in cmd/*/; do go build -tags verif -o bin/$(basename $d) ./$d || exit 1; done) || rc=1
+(cd harness && for d in cmd/*/; do go build -tags verif -o bin/$(basename $d) ./$d || echo "setup: adapter $d failed to build (will be reported by its check)"; done)
 exit $rc
